@@ -8,9 +8,12 @@
    the VM on the finalized set (with fixes/D8 applied; *_pinned = the code before it);
    spec_* = Spec/Inherit.v, written from the property text.
    Termination.  Model and specification carry the SAME fuel (depth of nested block/super()
-   activations), so the render theorems hold for every fuel, divergent sets included
-   (both sides then say EOutOfFuel).  A set whose block nesting is cyclic through the chain
-   (D13) is accepted by finalize and diverges: Example d13_out_of_fuel. *)
+   activations), so the render theorems hold for every fuel without a termination hypothesis
+   (a render that exceeds the fuel says EOutOfFuel on both sides).  Since the D13 repair,
+   finalize rejects every set whose (block, level) graph has a cycle (EBlockCycle; ported as
+   find_block_cycle / cycle_pass), including sets whose render would stop with an error before
+   looping; "accepted => the render terminates" is plausible but NOT proved here
+   (accepted_no_block_cycle only states that the ported check found nothing). *)
 From Coq Require Import List NArith Bool.
 From TeraV Require Import Model.Lineage Spec.Inherit Proofs.LineageRender Proofs.LineageProofs Proofs.LineageMain Proofs.LineageNoNest.
 Import ListNotations.
@@ -61,15 +64,29 @@ Theorem child_blocks_must_exist_rejects : forall ord ts ch,
   register ord ts = Err EOrphanBlock.
 Proof. intros. eapply chain_bad_rejected; eauto. Qed.
 
-(* the rule looks at top-level blocks only: whatever blocks children introduce inside other
-   blocks, a set whose chains pass the rule is accepted *)
+(* the orphan rule looks at top-level blocks only: whatever blocks children introduce inside
+   other blocks, a set whose chains pass the rule is not rejected by it.  What is left is
+   finalize's block-cycle check (the D13 repair, find_block_cycle): registration succeeds unless
+   that check finds a block that ends up rendering itself.  (EPanic / EOutOfFuel are the
+   model's explicit markers for an impossible index / too little fuel inside the ported walk;
+   the correspondence run never meets them; they are not excluded by proof.) *)
 Theorem nested_new_blocks_allowed : forall ord ts,
   orders_ok ord -> NoDup (tnames ts) ->
   (forall t, In t ts -> NoDup (map fst (blocks_of (t_body t)))) ->
   (forall t, In t ts -> exists anc, is_chain ts (t :: anc)) ->
   (forall ch, is_chain ts ch -> spec_accepts ch = true) ->
-  exists fr, register ord ts = Ok fr.
-Proof. intros. eapply chains_ok_accepted; eauto. Qed.
+  forall e, register ord ts = Err e -> e = EBlockCycle \/ e = EPanic \/ e = EOutOfFuel.
+Proof. intros. eapply chains_ok_only_cycle_rejection; eauto. Qed.
+
+(* an accepted set passed the block-cycle check for every template *)
+Theorem accepted_no_block_cycle : forall ord ts fr,
+  orders_ok ord -> NoDup (tnames ts) -> register ord ts = Ok fr ->
+  cycle_pass (f_tpls fr) (f_lineage fr) = Ok [].
+Proof.
+  intros ord ts fr Ho Hnd Hr. destruct (reg_facts ord ts fr Hr) as (Hca & Hfin & Hbl).
+  assert (Hwf : reg_wf (map compiled ts)) by (eapply reg_wf_compiled; eauto).
+  destruct (finalize_ok ord _ fr Ho Hwf Hfin) as (Htp & _ & _ & Hc & _). now rewrite Htp.
+Qed.
 
 (* single-block rendering, exact form: the block buffer after the full render's tree *)
 Theorem render_block_spec : forall ord ts fr fuel T anc b,
@@ -140,6 +157,7 @@ Print Assumptions render_chain_spec.
 Print Assumptions child_blocks_must_exist.
 Print Assumptions child_blocks_must_exist_rejects.
 Print Assumptions nested_new_blocks_allowed.
+Print Assumptions accepted_no_block_cycle.
 Print Assumptions render_block_spec.
 Print Assumptions no_block_inside_itself.
 Print Assumptions render_block_is_slice_of_render.
@@ -194,12 +212,26 @@ Example ex_nested_new :
          (fun fr => render_model 10 fr 1) = Ok [OText 2; OText 3].
 Proof. vm_compute. reflexivity. Qed.
 
-(* D13 (owned by C11): block nesting cyclic through the chain is accepted and never finishes *)
+(* D13 (owned by C11): block nesting cyclic through the chain is now rejected by finalize; the
+   specification of its render has no finite expansion *)
 Definition d13_base : template :=
   {| t_name := 0; t_extends := None; t_body := [BlockDef 0 [Text 1; BlockDef 1 [Text 2]]] |}.
 Definition d13_child : template :=
   {| t_name := 1; t_extends := Some 0; t_body := [BlockDef 1 [BlockDef 0 [Super]]] |}.
-Example d13_out_of_fuel :
-  on_reg [d13_base; d13_child] (fun fr => render_model 300 fr 1) = Err EOutOfFuel /\
+Example d13_rejected :
+  rmap (fun _ => tt) (register id_orders [d13_base; d13_child]) = Err EBlockCycle /\
   spec_render 300 [d13_child; d13_base] = Err EOutOfFuel.
+Proof. split; vm_compute; reflexivity. Qed.
+
+(* the check is static: this set is rejected although its render would stop with the super()
+   error of the root block before it could loop *)
+Example static_cycle_rejected :
+  rmap (fun _ => tt)
+       (register id_orders
+          [{| t_name := 0; t_extends := None; t_body := [BlockDef 0 [Super; BlockDef 1 [Text 1]]] |};
+           {| t_name := 1; t_extends := Some 0; t_body := [BlockDef 1 [BlockDef 0 [Super]]] |}])
+  = Err EBlockCycle /\
+  spec_render 300 [{| t_name := 1; t_extends := Some 0; t_body := [BlockDef 1 [BlockDef 0 [Super]]] |};
+                   {| t_name := 0; t_extends := None; t_body := [BlockDef 0 [Super; BlockDef 1 [Text 1]]] |}]
+  = Err ESuperTop.
 Proof. split; vm_compute; reflexivity. Qed.
